@@ -3,3 +3,7 @@ import Lace.Props.C08
 #print axioms Lace.C08.compile_fail_at
 #print axioms Lace.C08.compile_unwritable
 #print axioms Lace.C08.emitAll_fail_at
+#print axioms Lace.C08.compile_all_or_nothing_faults
+#print axioms Lace.C08.writeAllOrNothing_spec
+#print axioms Lace.C08.compile_write_fails_at
+#print axioms Lace.C08.in_place_truncates
